@@ -63,7 +63,15 @@ def main():
                 env = dict(os.environ, VERIF_SEED=os.environ.get("VERIF_SEED", "0"))
                 if scratch:
                     env["VERIF_REPO"] = REPO
-                c = subprocess.run([os.path.join(HERE, "check"), p, "--tier", tier], capture_output=True, text=True, env=env)
+                # evidence/<id>.json must always describe a run on the UNCHANGED tree: keep the
+                # committed file aside while the check runs against the seeded change
+                ev = os.path.join(HERE, "evidence", p + ".json")
+                saved = open(ev, "rb").read() if os.path.exists(ev) else None
+                try:
+                    c = subprocess.run([os.path.join(HERE, "check"), p, "--tier", tier], capture_output=True, text=True, env=env)
+                finally:
+                    if saved is not None:
+                        open(ev, "wb").write(saved)
                 viol = [ln for ln in c.stdout.splitlines() if ln.startswith("VIOLATION")]
                 sigs = [ln.strip()[len("signature: "):] for ln in c.stdout.splitlines() if ln.strip().startswith("signature:")]
                 out[p] = {"rc": c.returncode, "violations": len(viol), "signatures": sigs[:6], "wall_s": round(time.time() - t0, 1)}
